@@ -138,6 +138,30 @@ func RenderWCNF(m *gen.MaxSat, declared int, withTop bool, heavy ...int) string 
 	return sb.String()
 }
 
+// onlyNullVars returns the variables whose every occurrence carries the coefficient 0.
+func onlyNullVars(m *gen.MaxSat) map[string]bool {
+	res := map[string]bool{}
+	live := map[string]bool{}
+	for _, cs := range [][]ref.Lin{m.Hard, m.Soft} {
+		for _, c := range cs {
+			for i, l := range c.Lits {
+				if l < 0 {
+					l = -l
+				}
+				if c.Coefs != nil && c.Coefs[i] == 0 {
+					res[varName(l)] = true
+				} else {
+					live[varName(l)] = true
+				}
+			}
+		}
+	}
+	for k := range live {
+		delete(res, k)
+	}
+	return res
+}
+
 func usedVars(m *gen.MaxSat) map[string]bool {
 	res := map[string]bool{}
 	add := func(cs []ref.Lin) {
@@ -175,6 +199,7 @@ func c04Run(ci interface{}, rec *Rec) {
 	if c.Front == "api" {
 		scen := "maxsat.New+Solve"
 		used := usedVars(m)
+		onlyNull := onlyNullVars(m)
 		distinctModels := map[string]bool{}
 		// The same constraint values are handed over three times, and constraints with equal coefficient lists share
 		// one slice, as a caller building constraints in a loop would do: New must not modify what it is given.
@@ -220,6 +245,9 @@ func c04Run(ci interface{}, rec *Rec) {
 			}
 			var a uint32
 			for k := range used {
+				if _, in := model[k]; !in && onlyNull[k] {
+					continue // a variable written only with null coefficients: whether it is one of "the user's variables" is not said, so not asserted
+				}
 				val, ok := model[k]
 				if !ok {
 					rec.Viol(scen, "model-length", "Model", "user variable %q missing from the returned model", k)
